@@ -26,6 +26,7 @@
 #include <symengine/matrix.h>
 #include <symengine/parser.h>
 #include <climits>
+#include <algorithm>
 #include <unistd.h>
 #include <signal.h>
 #include <sys/wait.h>
@@ -503,30 +504,46 @@ static std::string run_work(const std::string &fam, unsigned long k)
         lucas2(outArg(g), outArg(s), n);
         o << " " << istr(g) << " " << istr(s);
         unsigned long f = r.below(60);
-        o << " " << istr(factorial(f)) << " " << istr(binomial(*integer(rand_z(r, 40)), r.below(12)));
-        o << " " << istr(bernoulli(r.below(30))) << " " << istr(harmonic(1 + r.below(30), 1 + (long)r.below(3)));
+        // every random draw in its own statement: the evaluation order of function arguments is unspecified
+        Z bn0 = rand_z(r, 40);
+        unsigned long bk = r.below(12), bern = r.below(30), hn = 1 + r.below(30);
+        long hm = 1 + (long)r.below(3);
+        o << " " << istr(factorial(f)) << " " << istr(binomial(*integer(bn0), bk));
+        o << " " << istr(bernoulli(bern)) << " " << istr(harmonic(hn, hm));
         return digest(o.str());
     }
     if (fam == "modular") {
         RCP<const Integer> p = nextprime(*integer(zabs(rand_z(r, 40, false)) + 2));
         RCP<const Integer> a = integer(zabs(rand_z(r, 60, false)) + 1);
         RCP<const Integer> n = integer((long)(2 + r.below(5)));
-        RCP<const Integer> root, pw, ord;
-        bool has = nthroot_mod(outArg(root), a, n, p);
-        o << has;
-        if (has)
-            o << ":" << istr(root);
-        RCP<const Number> e = Rational::from_two_ints(*integer((long)r.range(-9, 9)), *integer((long)(1 + r.below(3))));
-        bool hp = powermod(outArg(pw), a, e, p);
-        o << " pm:" << hp;
-        if (hp)
-            o << ":" << istr(pw);
+        RCP<const Integer> ord;
+        // all roots (sorted): nthroot_mod / powermod return *one* root, chosen through Tonelli-Shanks with a
+        // random non-residue (GMP: seeded from std::rand(), i.e. by the history of the process; Boost: a fixed
+        // mt19937 seed) - not a function of the arguments, so only the complete lists are compared
+        std::vector<RCP<const Integer>> roots;
+        nthroot_mod_list(roots, a, n, p);
+        o << roots.size();
+        for (auto &rt : roots)
+            o << ":" << istr(rt);
+        long en = (long)r.range(-9, 9);
+        long ed = (long)(1 + r.below(3));
+        RCP<const Number> e = Rational::from_two_ints(*integer(en), *integer(ed));
+        std::vector<RCP<const Integer>> pws;
+        powermod_list(pws, a, e, p);
+        std::vector<std::string> pstr;
+        for (auto &pw : pws)
+            pstr.push_back(istr(pw));
+        std::sort(pstr.begin(), pstr.end());
+        o << " pm:" << pws.size();
+        for (auto &ps : pstr)
+            o << ":" << ps;
         bool ho = multiplicative_order(outArg(ord), a, p);
         o << " ord:" << ho;
         if (ho)
             o << ":" << istr(ord);
         o << " qr:" << is_quad_residue(*a, *p);
-        std::vector<RCP<const Integer>> rem{integer((long)r.below(7)), integer((long)r.below(11)), integer((long)r.below(13))};
+        long r7 = (long)r.below(7), r11 = (long)r.below(11), r13 = (long)r.below(13);
+        std::vector<RCP<const Integer>> rem{integer(r7), integer(r11), integer(r13)};
         std::vector<RCP<const Integer>> mods{integer(7), integer(11), integer(13)};
         RCP<const Integer> R;
         bool hc = crt(outArg(R), rem, mods);
@@ -570,7 +587,9 @@ static std::string run_work(const std::string &fam, unsigned long k)
             o << " ipp:" << perfect_power(I) << " iroot:" << ex << ":" << istr(root);
         }
         // fractional powers (Rational::powrat / Integer::pow_rat paths through pow())
-        RCP<const Number> ex2 = Rational::from_two_ints(*integer((long)r.range(-7, 7)), *integer((long)(2 + r.below(4))));
+        long xn = (long)r.range(-7, 7);
+        long xd = (long)(2 + r.below(4));
+        RCP<const Number> ex2 = Rational::from_two_ints(*integer(xn), *integer(xd));
         o << " " << istr(pow(pp, ex2)) << " " << istr(pow(p, ex2));
         return digest(o.str());
     }
@@ -593,9 +612,9 @@ static std::string run_work(const std::string &fam, unsigned long k)
     if (fam == "expand") { // multinomial coefficients of (c1*x + c2*y + c3*z + c0)^k
         RCP<const Basic> x = symbol("x"), y = symbol("y"), z = symbol("z");
         unsigned kk = 2 + (unsigned)r.below(9);
-        RCP<const Basic> base
-            = add({mul(integer(rand_z(r, 20)), x), mul(Rational::from_two_ints(r.range(-9, 9), 1 + r.below(7)), y), z,
-                   integer((long)r.range(-3, 3))});
+        Z cx = rand_z(r, 20);
+        long cyn = (long)r.range(-9, 9), cyd = (long)(1 + r.below(7)), c0 = (long)r.range(-3, 3);
+        RCP<const Basic> base = add({mul(integer(cx), x), mul(Rational::from_two_ints(cyn, cyd), y), z, integer(c0)});
         RCP<const Basic> e = expand(pow(base, integer((long)kk)));
         // canonical listing: substitute numbers and evaluate exactly (order independent), plus term count
         map_basic_basic sub;
@@ -614,7 +633,10 @@ static std::string run_work(const std::string &fam, unsigned long k)
         std::vector<Z> c1, c2;
         unsigned d1 = 1 + (unsigned)r.below(8), d2 = 1 + (unsigned)r.below(6);
         for (unsigned i = 0; i <= d1; i++)
-            c1.push_back(rand_z(r, r.coin(1, 4) ? 90 : 12));
+        {
+            unsigned cb = r.coin(1, 4) ? 90 : 12;
+            c1.push_back(rand_z(r, cb));
+        }
         for (unsigned i = 0; i <= d2; i++)
             c2.push_back(rand_z(r, 12));
         if (c2.back() == 0)
